@@ -49,6 +49,35 @@ def numerals(text):
     return out
 
 
+_D = r"\d+\.\d+"
+_REAL = re.compile(r"\(-\s+\(/\s+(%s)\s+(%s)\)\s*\)|\(-\s+(%s)\s*\)|\(/\s+(%s)\s+(%s)\)|(?<![\w.])(%s)(?![\w.])" % (_D, _D, _D, _D, _D, _D))
+
+
+def real_literals(text):
+    """Real literals of an SMT-LIB term text in order of appearance: d.d, (/ d.d d.d), and their negations (- lit)."""
+    out = []
+    for m in _REAL.finditer(text):
+        g = m.groups()
+        if g[0]:
+            v = -Fraction(g[0]) / Fraction(g[1])
+        elif g[2]:
+            v = -Fraction(g[2])
+        elif g[3]:
+            v = Fraction(g[3]) / Fraction(g[4])
+        else:
+            v = Fraction(g[5])
+        out.append(q(v))
+    return out
+
+
+def dedup(xs):
+    out = []
+    for x in xs:
+        if x not in out:
+            out.append(x)
+    return out
+
+
 def events(ck, id0, quick):
     warnings.simplefilter("ignore")
     evs = []
@@ -74,7 +103,7 @@ def events(ck, id0, quick):
                          "equals": m.Equals}.get(op)
                 ev = {"id": id0 + len(evs), "kind": "bigarith", "sort": sort, "op": op, "a": z(a if sort == "Int" else 0),
                       "b": z(b if sort == "Int" else 0), "qa": q(a), "qb": q(b), "res": "error", "simp": NONE, "gv": NONE,
-                      "txt": [], "back": True, "exc": ""}
+                      "txt": [], "dtxt": [], "qtxt": [], "dqtxt": [], "back": True, "hr": "unparsed", "hrsimp": NONE, "exc": ""}
                 try:
                     if op == "toreal":
                         t, tx = m.ToReal(mk(a)), m.ToReal(x)
@@ -88,7 +117,24 @@ def events(ck, id0, quick):
                         ns = numerals(to_smtlib(t, daggify=False))
                         ev["txt"] = ns
                     back = SmtLibParser(env).get_script(io.StringIO("(assert %s)" % text)).commands[-1].args[0]
-                    ev["back"] = back is f
+                    # ... and through the let-DAG printer, which spells constants with code of its own
+                    dtext = to_smtlib(f, daggify=True)
+                    dback = SmtLibParser(env).get_script(io.StringIO("(assert %s)" % dtext)).commands[-1].args[0]
+                    if sort == "Int":
+                        ev["dtxt"] = dedup(numerals(to_smtlib(t, daggify=True)))      # a shared constant may be printed once
+                    elif op not in ("toreal", "div"):
+                        ev["qtxt"] = real_literals(to_smtlib(t, daggify=False))
+                        ev["dqtxt"] = dedup(real_literals(to_smtlib(t, daggify=True)))
+                    ev["back"] = back is f and dback is f
+                    # the human-readable syntax: what parse(serialize(t)) denotes (judged like simplify(t))
+                    try:
+                        from pysmt.parsing import HRParser
+                        g = HRParser(env).parse(t.serialize())
+                    except Exception:
+                        g = None                      # outside the fragment of the human-readable parser
+                    if g is not None:
+                        ev["hr"] = "ok"
+                        ev["hrsimp"] = outcome(g.simplify())
                     ev["res"] = "ok"
                     ck.nontrivial(("big", sort, op, str(a), str(b)))
                 except Exception as ex:
